@@ -25,3 +25,112 @@ W["int_to_binary"] = dict(
              "implies(old(value) == 0, len(result) == 0)"],
     native=dict(call=lambda f, value: f(value), domain=lambda: ({"value": v} for v in range(0, 300))),
 )
+
+# ------------------------------------------------------------------ combinatorics.py (C13)
+import itertools as _it
+import math as _math
+
+
+def _prod(xs):
+    p = 1
+    for x in xs:
+        p *= x
+    return p
+
+
+_RANK = "sum(j, 0, len(components), components[j] * W[j])"
+W["extract_components"] = dict(
+    id="extract_components", target="sweetpea._internal.combinatorics:extract_components", prop=["C13", "C05"],
+    params={"sizes": "list[int]", "n": "int"},
+    requires=["n >= 0", "forall(i, 0, len(sizes), sizes[i] >= 1)"],
+    # ghost: P = product of the sizes consumed so far, W[j] = product of sizes[0..j) (the mixed-radix weight of digit j)
+    ghost={"P": ("int", "1"), "W": ("list[int]", "[]")},
+    loops={0: dict(
+        index="i",
+        invariant=["len(components) == i", "len(W) == i", "P >= 1", "n >= 0",
+                   "old(n) == n * P + " + _RANK,
+                   "0 <= " + _RANK, _RANK + " < P",
+                   "forall(j, 0, i, 0 <= components[j] and components[j] < sizes[j])",
+                   "implies(i > 0, W[0] == 1)", "forall(j, 0, i - 1, W[j + 1] == W[j] * sizes[j])",
+                   "implies(i > 0, P == W[i - 1] * sizes[i - 1])", "implies(i == 0, P == 1)"],
+        ghost_update=["W.append(P)"],
+        ghost_end=["P = P * s"],
+        hints=[_RANK + " == pre(" + _RANK + ") + (pre(n) % s) * pre(P)",
+               "pre(n) == n * s + pre(n) % s", "n * P == n * s * pre(P)",
+               "(pre(n) % s) * pre(P) >= 0", "(pre(n) % s) * pre(P) <= (s - 1) * pre(P)"])},
+    ensures=["len(result) == len(sizes)",
+             "forall(j, 0, len(sizes), 0 <= result[j] and result[j] < sizes[j])",
+             # rank(result) + (n div prod) * prod == n  with W the mixed-radix weights and P = prod(sizes)
+             "len(W) == len(sizes)", "implies(len(sizes) > 0, W[0] == 1)", "forall(j, 0, len(sizes) - 1, W[j + 1] == W[j] * sizes[j])",
+             "implies(len(sizes) > 0, P == W[len(sizes) - 1] * sizes[len(sizes) - 1])", "implies(len(sizes) == 0, P == 1)",
+             "old(n) == n * P + sum(j, 0, len(result), result[j] * W[j])",
+             "0 <= sum(j, 0, len(result), result[j] * W[j])", "sum(j, 0, len(result), result[j] * W[j]) < P",
+             "implies(old(n) < P, old(n) == sum(j, 0, len(result), result[j] * W[j]))"],
+    native=dict(call=lambda f, sizes, n: f(list(sizes), n),
+                domain=lambda: ({"sizes": list(s), "n": n} for L in range(0, 4) for s in _it.product([1, 2, 3], repeat=L) for n in range(0, 2 * _prod(s) + 2)),
+                ghost_post=lambda res, sizes, n: {"W": [_prod(sizes[:j]) for j in range(len(sizes))], "P": _prod(sizes), "n": n // _prod(sizes)}),
+)
+
+# compute_jth_combination(l, n, j): digits base n, most significant first
+_BEV = "sum(t, 0, l - 1 - k, combination[l - 1 - t] * Wn[t])"
+W["compute_jth_combination"] = dict(
+    id="compute_jth_combination", target="sweetpea._internal.combinatorics:compute_jth_combination", prop=["C13"],
+    params={"l": "int", "n": "int", "j": "int"},
+    requires=["l >= 0", "n >= 1", "j >= 0"],
+    ghost={"P": ("int", "1"), "Wn": ("list[int]", "[]")},        # Wn[t] = n^t
+    loops={0: dict(
+        index="i",
+        invariant=["len(combination) == l", "len(Wn) == i", "P >= 1", "j >= 0",
+                   "forall(t, 0, i, Wn[t] >= 1)", "implies(i > 0, Wn[0] == 1)", "forall(t, 0, i - 1, Wn[t + 1] == Wn[t] * n)",
+                   "implies(i > 0, P == Wn[i - 1] * n)", "implies(i == 0, P == 1)",
+                   "old(j) == j * P + sum(t, 0, i, combination[l - 1 - t] * Wn[t])",
+                   "0 <= sum(t, 0, i, combination[l - 1 - t] * Wn[t])", "sum(t, 0, i, combination[l - 1 - t] * Wn[t]) < P",
+                   "forall(t, 0, i, 0 <= combination[l - 1 - t] and combination[l - 1 - t] < n)"],
+        ghost_update=["Wn.append(P)"],
+        ghost_end=["P = P * n"],
+        hints=["k == l - i", "Wn[i - 1] == pre(P)", "P == pre(P) * n", "pre(j) == j * n + pre(j) % n",
+               "(pre(j) % n) * pre(P) >= 0", "(pre(j) % n) * pre(P) <= (n - 1) * pre(P)", "j * P == j * n * pre(P)",
+               "sum(t, 0, i, combination[l - 1 - t] * Wn[t]) == pre(sum(t, 0, i, combination[l - 1 - t] * Wn[t])) + (pre(j) % n) * pre(P)"])},
+    ensures=["len(result) == l", "forall(t, 0, l, 0 <= result[t] and result[t] < n)",
+             "len(Wn) == l", "implies(l > 0, Wn[0] == 1)", "forall(t, 0, l - 1, Wn[t + 1] == Wn[t] * n)",
+             "implies(l > 0, P == Wn[l - 1] * n)", "implies(l == 0, P == 1)",
+             "old(j) == j * P + sum(t, 0, l, result[l - 1 - t] * Wn[t])",
+             "0 <= sum(t, 0, l, result[l - 1 - t] * Wn[t])", "sum(t, 0, l, result[l - 1 - t] * Wn[t]) < P",
+             "implies(old(j) < P, old(j) == sum(t, 0, l, result[l - 1 - t] * Wn[t]))"],
+    native=dict(call=lambda f, l, n, j: f(l, n, j),
+                domain=lambda: ({"l": l, "n": n, "j": j} for l in range(0, 4) for n in range(1, 4) for j in range(0, 2 * n ** l + 2)),
+                ghost_post=lambda res, l, n, j: {"Wn": [n ** t for t in range(l)], "P": n ** l, "j": j // (n ** l)}),
+)
+
+# compute_jth_inversion_sequence(n, m, j): falling-factorial radix n, n-1, ..., n-m+1
+W["compute_jth_inversion_sequence"] = dict(
+    id="compute_jth_inversion_sequence", target="sweetpea._internal.combinatorics:compute_jth_inversion_sequence", prop=["C13"],
+    params={"n": "int", "m": "int", "j": "int"},
+    requires=["0 <= m", "m <= n", "j >= 0"],
+    ghost={"P": ("int", "1"), "Wf": ("list[int]", "[]")},        # Wf[t] = n (n-1) ... (n-t+1)
+    loops={0: dict(
+        index="i",
+        invariant=["len(inversion) == i", "len(Wf) == i", "P >= 1", "j >= 0", "i <= m",
+                   "implies(i > 0, Wf[0] == 1)", "forall(t, 0, i - 1, Wf[t + 1] == Wf[t] * (n - t))",
+                   "implies(i > 0, P == Wf[i - 1] * (n - (i - 1)))", "implies(i == 0, P == 1)",
+                   "old(j) == j * P + sum(t, 0, i, inversion[t] * Wf[t])",
+                   "0 <= sum(t, 0, i, inversion[t] * Wf[t])", "sum(t, 0, i, inversion[t] * Wf[t]) < P",
+                   "forall(t, 0, i, 0 <= inversion[t] and inversion[t] < n - t)"],
+        ghost_update=["Wf.append(P)"],
+        ghost_end=["P = P * k"],
+        hints=["k == n - (i - 1)", "Wf[i - 1] == pre(P)", "P == pre(P) * k",
+               "implies(i > 1, Wf[i - 1] == Wf[i - 2] * (n - (i - 2)))",
+               "(pre(j) % k) * pre(P) >= 0", "(pre(j) % k) * pre(P) <= (k - 1) * pre(P)", "j * P == j * k * pre(P)",
+               "sum(t, 0, i, inversion[t] * Wf[t]) == pre(sum(t, 0, i, inversion[t] * Wf[t])) + (pre(j) % k) * pre(P)"])},
+    ensures=["len(result) == m", "forall(t, 0, m, 0 <= result[t] and result[t] < n - t)",
+             "len(Wf) == m", "implies(m > 0, Wf[0] == 1)", "forall(t, 0, m - 1, Wf[t + 1] == Wf[t] * (n - t))",
+             "implies(m > 0, P == Wf[m - 1] * (n - (m - 1)))", "implies(m == 0, P == 1)",
+             "old(j) == j * P + sum(t, 0, m, result[t] * Wf[t])",
+             "0 <= sum(t, 0, m, result[t] * Wf[t])", "sum(t, 0, m, result[t] * Wf[t]) < P",
+             "implies(old(j) < P, old(j) == sum(t, 0, m, result[t] * Wf[t]))"],
+    native=dict(call=lambda f, n, m, j: f(n, m, j),
+                domain=lambda: ({"n": n, "m": m, "j": j} for n in range(0, 5) for m in range(0, n + 1)
+                                for j in range(0, 2 * (_math.factorial(n) // _math.factorial(n - m)) + 2)),
+                ghost_post=lambda res, n, m, j: {"Wf": [_math.factorial(n) // _math.factorial(n - t) for t in range(m)],
+                                                 "P": _math.factorial(n) // _math.factorial(n - m), "j": j // (_math.factorial(n) // _math.factorial(n - m))}),
+)
